@@ -105,6 +105,7 @@ def corpus_cases():
 
 def run(tier, seed):
     R = C.Report(CID, tier, seed)
+    PS.drop_stale_known(R, PS.MY_PROPS)
     rng = C.rng_for(seed, CID)
     n = 12000 if tier == 'quick' else 400000
     P = PS.proof_stage(R)
@@ -118,15 +119,18 @@ def run(tier, seed):
             cfg[fl] = True
             R.notes.append(f'finding for {fl} no longer reproduces; model run with the repaired configuration')
     drop = not cfg['f_mv_keep_subst']
-    cases = corpus_cases()
-    ncorp = len(cases)
-    cases += gen_cases(rng, sides, n if not proof_broken else 3 * n, drop)
-    for c in cases[ncorp:ncorp + 6]:
-        R.sample(f'{c.op} {c.args[:160]}')
-    mismatches, failing = PS.check_cases(R, sides, cases, cfg, CID, kindfun=kindfun)
-    if mismatches and not failing:
-        more = gen_cases(C.rng_for(seed, CID + ':search'), sides, 4 * n, drop)
-        _, failing = PS.check_cases(R, sides, more, cfg, CID, kindfun=kindfun)
+    grng = rng
+
+    def gen_fn(k):
+        cs = gen_cases(grng, sides, k, drop)
+        for c in cs[:6]:
+            R.sample(f'{c.op} {c.args[:160]}')
+        return cs
+    mismatches, nfail, nmis = PS.check_in_batches(R, sides, cfg, CID, corpus_cases(), gen_fn, n if not proof_broken else 3 * n, kindfun=kindfun)
+    if mismatches and not nfail:
+        grng = C.rng_for(seed, CID + ':search')
+        _, nfail, _ = PS.check_in_batches(R, sides, cfg, CID, [], gen_fn, 4 * n, kindfun=kindfun)
+    failing = [None] * nfail
     if proof_broken and not R.violations:
         R.violation('proof-broken', 'Coq proof stage failed',
                     {'no_failing_input_found': True, 'theorem_or_correspondence': f'Props/{CID}.v', 'log': P['log']})
@@ -135,7 +139,7 @@ def run(tier, seed):
                     {'no_failing_input_found': True,
                      'theorem_or_correspondence': f'correspondence mlref_py vs BasicInterpreter/StatefulInterpreter/ProofExp (configuration {PS.flagstr(cfg)})',
                      'first_mismatches': mismatches[:5]})
-    R.notes.append({'tie_mismatches': len(mismatches), 'oracle_failures': len(failing)})
+    R.notes.append({'tie_mismatches': nmis, 'oracle_failures': nfail})
     R.coverage['rule'] = ('premise pairs for modus ponens (applicable in three notation states, antecedent mutated, implication '
                           'hidden in notation, non-implication, swapped), generalisation premises with the variable free/bound '
                           'under 0-3 notation layers, instantiation with partial/total maps; each through BasicInterpreter and '
